@@ -107,6 +107,25 @@ def _model(case, a):
     return None
 
 
+def program_shared(path, mode, ops, shared):
+    """like `program`, but the operations whose index is in `shared` (all the same operation) are one action *value*,
+    built once and executed at each of those places: an action describes an operation, it is not a snapshot of its result"""
+    n = len(ops)
+    k0 = min(shared)
+    # frames: the file handle is argument 0 of the outermost continuation, the shared action is argument 0 of the next one,
+    # then one continuation per operation
+    def fref(depth): return f"ㄱㅇ{enc(depth)}"
+    def build(i):
+        # inside i result-continuations, below the (handle, action) functions: handle is i+1 levels out, action i levels out
+        if i == n:
+            items = " ".join(f"ㄱㅇ{enc(n - 1 - j)}" for j in range(n))
+            return f"{items} ㅁㄹㅎ{enc(n)} ㄱㅅㅎㄴ"
+        act = fref(i) if i in shared else op_expr(ops[i], fref(i + 1))
+        return f"{act} ({build(i + 1)} ㅎ) ㄱㄹㅎㄷ"
+    shared_expr = op_expr(ops[k0], "ㄱㅇㄱ")                 # built where the handle is argument 0
+    return (f"{render(str_lit(path))} {MODES[mode]} ㄱㄴㅎㄷ (({shared_expr}) ({build(0)} ㅎ) ㅎㄴ ㅎ) ㄱㄹㅎㄷ")
+
+
 def cases(rng, tier):
     n = 400 if tier == 'quick' else 15000
     initials = [None, b"", b"x", bytes(range(48, 58)) * 30]
@@ -120,6 +139,17 @@ def cases(rng, tier):
             ops = list(seq) + [('close',)]
             yield Case(program=program("f.bin", mode, ops), fs={"f.bin": b"abc"}, tag='exhaustive-' + mode, monitor='c14_model',
                        data=("f.bin", mode, b"abc", ops), compare_fs=True)
+    # one action value executed at several places of a history (tell / read / write / relative seek / truncate-here)
+    for mode in MODES:
+        for shared_op in [('tell',), ('read', 2), ('read', -1), ('write', b"Q"), ('seekcur', 1), ('trunc',), ('seek', 1)]:
+            if shared_op[0] == 'read' and mode not in CAN_READ or shared_op[0] in ('write', 'trunc') and mode not in CAN_WRITE:
+                continue
+            for between in basic:
+                if between[0] == 'read' and mode not in CAN_READ or between[0] in ('write', 'trunc') and mode not in CAN_WRITE:
+                    continue
+                ops = [shared_op, between, shared_op, ('tell',), ('close',)]
+                yield Case(program=program_shared("f.bin", mode, ops, {0, 2}), fs={"f.bin": b"abcdef"}, tag='shared-action-' + mode,
+                           monitor='c14_model', data=("f.bin", mode, b"abcdef", ops), compare_fs=True)
     for _ in range(n):
         mode = rng.choice(list(MODES))
         initial = rng.choice(initials)
@@ -137,7 +167,7 @@ SPEC = {
     'lean': ['C14'],
     'cases': cases,
     'stream': 'C14 file history stream (real files in a scratch directory)',
-    'rule': 'operation histories of permitted operations (read n / all, write, tell, absolute / relative seek, truncate to '
+    'rule': 'one action value executed twice with another operation in between (every shareable operation × every operation × 6 modes); operation histories of permitted operations (read n / all, write, tell, absolute / relative seek, truncate to '
             'n / to the position) ending with close: all 2-operation (quick) / 3-operation sequences per mode on a 3-byte '
             'file, and random histories of ≤ 12 (quick) / ≤ 30 operations × six modes × initial contents {absent, empty, 1 '
             'byte, 300 bytes}; returned bytes / counts / positions and the final on-disk contents against a plain byte-array '
